@@ -258,6 +258,26 @@ def laneChan : List String → String
     | _, _, _ => "bad-op"
   | _ => "bad-op"
 
+open Req.Client.Dump in
+def lifeOpOf : Nat → Option LifeOp
+  | 0 => some (.set false) | 1 => some (.set true) | 2 => some .asyncAll
+  | 3 => some .disable | 4 => some .clone | _ => none
+
+open Req.Client.Dump in
+/-- `c13life <op numbers>` → `none` or the live dumper's `async=… delivers=…`. -/
+def laneLife : List String → String
+  | [ops] =>
+    match decodeNatList ops with
+    | some l =>
+      match l.mapM lifeOpOf with
+      | some os =>
+        match lifeRun os with
+        | none => "none"
+        | some d => "async=" ++ (if d.async then "1" else "0") ++ " delivers=" ++ (if d.delivers then "1" else "0")
+      | none => "bad-op"
+    | none => "bad-op"
+  | _ => "bad-op"
+
 def lanes : List (String × (List String → String)) := [
   ("c13rl", laneRl),
   ("c13exp", laneExp),
@@ -267,7 +287,8 @@ def lanes : List (String × (List String → String)) := [
   ("c13wrapr", laneWrapR),
   ("c13chan", laneChan),
   ("c13preset", lanePreset),
-  ("c13seq", laneSeq)
+  ("c13seq", laneSeq),
+  ("c13life", laneLife)
 ]
 
 end Req.Driver.L.C13
